@@ -4,12 +4,13 @@ spec:   spec/Sector.tla (actions AddVariable, SetRHS, Exclude, AddCashFlow; inva
         C06_INC, C06_DefineOnce stated over the history `log`)
 TLC:    exhaustive check of the bounded instances; every maximal behaviour is emitted as the list
         of its action keys, the alphabet (key -> action record) once
-          quick     MC_Sector_quick.cfg      26 actions, histories of length 3
+          quick     MC_Sector_quick.cfg      27 actions, histories of length 3
           thorough  the quick instance, and
-                    MC_Sector_thorough.cfg   54 actions, length 3
+                    MC_Sector_thorough.cfg   58 actions, length 3
                     MC_Sector_thorough2.cfg  20 actions, length 4
-                    MC_Sector_thorough3.cfg  all 206 actions of the instance, length 2
-        flow terms: names A, B, products A*B, B*A, quotients A/B, B/A (A/B and B/A are different flows)
+                    MC_Sector_thorough3.cfg  all 266 actions of the instance, length 2
+        flow terms: names A, B, products A*B, B*A, quotients A/B, B/A (A/B and B/A are different flows),
+        a name with a numeric factor 2*A, A*2, A/2, 2/A; each under the sign / bracket spellings
 replay: each behaviour is executed on a fresh real Sector 'S' inside a fresh real Model / Country C1;
         two more sectors only receive the exclusions that must not concern S: the twin 'T' = a
         Sector with the SAME Code 'S' in a second Country C2 of the same Model (exclusions are per
@@ -39,12 +40,13 @@ Readings (the weaker one is used wherever the statement allows two):
 import concurrent.futures
 import fractions
 import json
+import re
 
 from harness import core
 
 # = Vals of Sector.tla.  Ledger values are rational (quotient flows): they are logged K-fold, as exact integers.
-ENVS = [dict(A=4096, B=16, LAG_F=1048576, Z=3, W=8), dict(A=-4096, B=16, LAG_F=-1048576, Z=-4, W=-6)]
-SCALE = 256
+ENVS = [dict(A=12, B=-5, LAG_F=1009, Z=3, W=8), dict(A=-15, B=4, LAG_F=-1013, Z=-4, W=-6)]
+SCALE = 60
 DEF_SCALE = 4        # definition texts (coefficients 0.5, 0.25) are logged 4-fold = DenDef of Sector.tla
 FLOW_NAMES = ('A', 'B')
 WHO = {'S': 'C1_S', 'T': 'C2_S(twin: same Code, other Country)', 'O': 'C1_O'}
@@ -71,28 +73,61 @@ def show(a):
 _CODE_CACHE = {}
 
 
+_NUMBER = re.compile(r'(?<![\w.])(\d+\.?\d*(?:[eE][-+]?\d+)?|\.\d+(?:[eE][-+]?\d+)?)(?![\w.])')
+
+
 def evaluate(text, scale=1):
-    """-> (ok, [int, int]): `scale` times the value of an expression text on the two valuations, computed
-    exactly (the float result is converted to a Fraction; all numbers involved are dyadic); not ok when
-    the text cannot be evaluated, or scale * value is not an integer that fits TLC's 32-bit integers"""
+    """-> (ok, [int, int]): `scale` times the value of an expression text on the two valuations, computed in
+    exact rational arithmetic (numeric literals and variables are Fractions); not ok when the text cannot be
+    evaluated, or scale * value is not an integer that fits TLC's 32-bit integers"""
     vals = []
     try:
         code = _CODE_CACHE.get(text)
         if code is None:
-            code = compile(text, '<rhs>', 'eval')
+            code = compile(_NUMBER.sub(lambda m: "Fr('%s')" % m.group(1), text), '<rhs>', 'eval')
             if len(_CODE_CACHE) < 100000:
                 _CODE_CACHE[text] = code
         for env in ENVS:
-            v = eval(code, {'__builtins__': {}}, dict(env))
-            if isinstance(v, bool) or not isinstance(v, (int, float)):
+            scope = {k: fractions.Fraction(v) for k, v in env.items()}
+            scope['Fr'] = fractions.Fraction
+            v = eval(code, {'__builtins__': {}}, scope)
+            if isinstance(v, bool) or not isinstance(v, (int, fractions.Fraction)):
                 return False, [0, 0]
-            q = fractions.Fraction(v) * scale          # raises on nan / inf
+            q = fractions.Fraction(v) * scale
             if q.denominator != 1 or abs(q.numerator) >= 2 ** 31:
                 return False, [0, 0]
             vals.append(int(q.numerator))
     except Exception:
         return False, [0, 0]
     return True, vals
+
+
+def check_separation(norm=8):
+    """Reproduces the separation claim of Sector.tla (not run by the check): enumerates every difference d of
+    ledger coefficient vectors over the ten bodies and LAG_F with sum |d_i| <= norm and returns those that
+    vanish under both valuations without being the zero flow value identically (expected: [])."""
+    Fr = fractions.Fraction
+    cols = []
+    for env in ENVS:
+        A, B, L = Fr(env['A']), Fr(env['B']), Fr(env['LAG_F'])
+        cols.append([int(x * SCALE) for x in (A, B, A * B, B * A, A / B, B / A, 2 * A, A * 2, A / 2, 2 / A, L)])
+    n, d, bad = len(cols[0]), [0] * 11, []
+
+    def rec(i, left, s0, s1):
+        if i == n:
+            dA, dB, dAB, dBA, dAoB, dBoA, d2A, dA2, dAh, d2oA, dL = d
+            same = (2 * dA + 4 * d2A + 4 * dA2 + dAh == 0 and dAB + dBA == 0
+                    and not (dB or dAoB or dBoA or d2oA or dL))
+            if s0 == 0 and s1 == 0 and not same:
+                bad.append(list(d))
+            return
+        for c in range(-left, left + 1):
+            d[i] = c
+            rec(i + 1, left - abs(c), s0 + c * cols[0][i], s1 + c * cols[1][i])
+        d[i] = 0
+
+    rec(0, norm, 0, 0)
+    return bad
 
 
 def observe(sec, verbose=False):
@@ -167,8 +202,10 @@ def execute(beh, verbose=False):
 
 
 def spelling(a):
-    """sign / bracket form of a flow term with the body reduced to n(ame) / p(roduct) / q(uotient)"""
-    kind = 'n' if a['body'] in FLOW_NAMES else 'q' if '/' in a['body'] else 'p'
+    """sign / bracket form of a flow term with the body reduced to n(ame) / p(roduct) / q(uotient) / numeric factor 2*n, n*2, n/2, 2/n"""
+    body = a['body']
+    kind = ('n' if body in FLOW_NAMES else body.replace('A', 'n') if '2' in body      # 2*n, n*2, n/2, 2/n
+            else 'q' if '/' in body else 'p')
     return a['s1'] + ('(' + a['s2'] + kind + ')' if a['br'] else kind)
 
 
@@ -304,9 +341,10 @@ def run(rep):
                 'this sector / its same-Code twin in a second country / another sector, AddVariable, SetEquationRightHandSide); each replayed on a fresh real '
                 'Model/Country/Sector; distinct = distinct call sequences; non-trivial = at least one AddCashFlow')
     rep.exhaustive = True
-    rep.assumptions = ['ledger values are compared exactly (256-fold, as integers) on two fixed valuations under which '
-                       'A, B, A*B, A/B, B/A and LAG_F are distinct powers of 16: any two ledgers whose coefficients '
-                       'differ by less than 16 differ in value; definition values on two integer valuations',
+    rep.assumptions = ['ledger values are computed in exact rational arithmetic and compared (60-fold, as integers) on two '
+                       'fixed valuations; they tell apart any two ledgers whose coefficient vectors differ by at most 10 '
+                       'in sum of absolute values and that are not the same flow value identically (enumerated: '
+                       'check_separation); definition values 4-fold on two integer valuations',
                        '"not excluded" is read as not excluded at the time of registration (weaker reading)',
                        "empty / identically zero = the placeholder spellings '' and '0.0'; nothing is demanded of AddCashFlow about "
                        "an existing '0' / '0.'; every other text (also one beginning like a zero literal) is a definition",
